@@ -220,15 +220,16 @@ def main():
         cases.append(make_case(trees, sep, 'compact', rng, 'homographs', tail=rng.choice(TAILS)))
     # every total number of word tokens in a range (hapaxes and twice-seen words included): the statistics
     # are ratios of counts, and float formulas that recover counts from probabilities go wrong only at some totals
-    for W in range(40, 261 if ck.thorough else 111):
+    for W in list(range(11, 40)) + list(range(40, 261 if ck.thorough else 111)):
         fam = ['ascii', 'multi', 'ipa'][W % 3]
         sep = SEPS[W % len(SEPS)]
         lexi = [sl.rand_tree(rng, sl.PHONES[fam], nwords=1)[0] for _ in range(rng.randint(5, 9))]
         words = [lexi[0], lexi[1], lexi[1], lexi[2]] + [rng.choice(lexi[3:]) for _ in range(W - 4)]
         rng.shuffle(words)
         trees = []
+        shape = W % 7          # one utterance holding every word / single-word utterances only / mixed
         while words:
-            k = rng.randint(1, 6)
+            k = len(words) if shape == 0 else 1 if shape == 1 else rng.randint(1, 6)
             trees.append(words[:k])
             words = words[k:]
         if not all(sl.tree_ok(t, sep) for t in trees):
